@@ -218,7 +218,8 @@ func judge(fatalf func(string, ...any), s respSpec, r reqSpec, w wire, plain wir
 				fatalf("stale Content-Length %s on a compressed response of %d bytes\n%s", cl, len(w.body), ctx)
 			}
 		}
-		if cl := w.header.Get("Content-Length"); cl != "" && cl == strconv.Itoa(len(s.body())) && len(s.body()) > 0 && !bodyVisible {
+		// (23 is the size of an empty gzip stream, which net/http advertises for a HEAD response by itself)
+		if cl := w.header.Get("Content-Length"); cl != "" && cl == strconv.Itoa(len(s.body())) && len(s.body()) > 0 && len(s.body()) != 23 && !bodyVisible {
 			// HEAD: the advertised length must not be the uncompressed one while the encoding says gzip
 			fatalf("compressed response advertises the uncompressed Content-Length %s\n%s", cl, ctx)
 		}
